@@ -382,8 +382,15 @@ func (g *GcsEmu) handleGcsMetadataRequest(ctx context.Context, baseUrl HttpBaseU
 }
 
 func (g *GcsEmu) handleGcsUpdateMetadataRequest(ctx context.Context, baseUrl HttpBaseUrl, w http.ResponseWriter, r *http.Request, bucket, filename string, conds cloudstorage.Conditions) {
+	// Read the body before taking the object lock: a client that is slow to send it (or never finishes) must not
+	// keep every other request for this object waiting.
+	body, err := io.ReadAll(r.Body)
+	if err != nil {
+		g.gapiError(w, http.StatusBadRequest, fmt.Sprintf("failed to read request: %s", err))
+		return
+	}
 	var obj *storage.Object
-	err := g.locks.Run(ctx, lockName(bucket, filename), func(ctx context.Context) error {
+	err = g.locks.Run(ctx, lockName(bucket, filename), func(ctx context.Context) error {
 		// Find the existing file / meta.
 		var err error
 		obj, err = g.store.GetMeta(baseUrl, bucket, filename)
@@ -402,7 +409,7 @@ func (g *GcsEmu) handleGcsUpdateMetadataRequest(ctx context.Context, baseUrl Htt
 
 		// Update via json decode.
 		stored := *obj
-		err = json.NewDecoder(r.Body).Decode(&obj)
+		err = json.NewDecoder(bytes.NewReader(body)).Decode(&obj)
 		if err != nil {
 			return fmtErrorfCode(http.StatusBadRequest, "failed to parse request: %w", err)
 		}
